@@ -1,5 +1,221 @@
 package c14
 
-import "verif/harness/vk"
+import (
+	"context"
+	"fmt"
+	"os"
+	"time"
 
-func databaseChecks(r *vk.Run) error { return nil }
+	"github.com/codenotary/immudb/embedded/store"
+	"github.com/codenotary/immudb/pkg/api/protomodel"
+	"github.com/codenotary/immudb/pkg/api/schema"
+	"github.com/codenotary/immudb/pkg/database"
+	"google.golang.org/protobuf/types/known/structpb"
+	"verif/harness/vk"
+)
+
+// databaseChecks: pkg/database truncation (catalog copy + TruncateUptoTx) followed by a restart.
+// Direct property checks only (no model case): the SQL catalog and a document collection created
+// BEFORE the cut still load and accept writes; rows/documents/values written at or after the cut
+// read back; transactions at or after the cut read in full.
+func databaseChecks(r *vk.Run) error {
+	rounds := 2
+	if os.Getenv("VERIF_TIER") == "thorough" {
+		rounds = 8
+	}
+	for k := 0; k < rounds; k++ {
+		if err := databaseRound(r, 1+r.Rng.Intn(3), 512+r.Rng.Intn(3)*256); err != nil {
+			r.Finding(fmt.Sprintf("pkg/database scenario could not be completed: %v", err))
+		}
+	}
+	return nil
+}
+
+func dbOptions(dir string, maxio, fsz int) *database.Options {
+	so := smallOpts().WithMaxTxEntries(64).WithMaxKeyLen(256).WithMaxIOConcurrency(maxio).WithFileSize(fsz).WithVLogCacheSize(0)
+	return database.DefaultOptions().WithDBRootPath(dir).WithStoreOptions(so)
+}
+
+func databaseRound(r *vk.Run, maxio, fsz int) (err error) {
+	dir, err := os.MkdirTemp("", "vh-c14-db")
+	if err != nil {
+		return err
+	}
+	defer os.RemoveAll(dir)
+	desc := fmt.Sprintf("pkg/database maxio=%d fileSize=%d", maxio, fsz)
+	defer func() {
+		if rec := recover(); rec != nil {
+			r.Finding(fmt.Sprintf("%s: panic during truncation scenario: %v", desc, rec))
+			err = nil
+		}
+	}()
+	// every call is bounded: a database whose indexer cannot read a value it needs waits forever
+	ctx, cancel := context.WithTimeout(context.Background(), 90*time.Second)
+	defer cancel()
+	db, err := database.NewDB("db1", nil, dbOptions(dir, maxio, fsz), quiet)
+	if err != nil {
+		return fmt.Errorf("NewDB: %v", err)
+	}
+	closed := false
+	defer func() {
+		if !closed {
+			db.Close()
+		}
+	}()
+	exec := func(stmt string) error {
+		_, _, err := db.SQLExec(ctx, nil, &schema.SQLExecRequest{Sql: stmt})
+		return err
+	}
+	count := func(stmt string) (int, error) {
+		res, err := db.SQLQueryAll(ctx, nil, &schema.SQLQueryRequest{Sql: stmt})
+		if err != nil {
+			return 0, err
+		}
+		return len(res), nil
+	}
+	// catalog and collection created BEFORE the cut
+	if err := exec("CREATE TABLE table1 (id INTEGER AUTO_INCREMENT, name VARCHAR[50], amount INTEGER, PRIMARY KEY id)"); err != nil {
+		return fmt.Errorf("create table: %v", err)
+	}
+	if err := exec("CREATE UNIQUE INDEX ON table1 (name)"); err != nil {
+		return fmt.Errorf("create index: %v", err)
+	}
+	if _, err := db.CreateCollection(ctx, "admin", &protomodel.CreateCollectionRequest{Name: "coll1",
+		Fields: []*protomodel.Field{{Name: "number", Type: protomodel.FieldType_INTEGER}, {Name: "country", Type: protomodel.FieldType_STRING}}}); err != nil {
+		return fmt.Errorf("create collection: %v", err)
+	}
+	// key-value transactions with values around the file size (chunks rotate)
+	type kvw struct {
+		id  uint64
+		key []byte
+		val []byte
+	}
+	var kvs []kvw
+	set := func(i int) error {
+		n := r.Rng.Intn(fsz + fsz/2)
+		v := vk.RandBytes(r.Rng, n)
+		key := []byte(fmt.Sprintf("key_%d", i))
+		hdr, err := db.Set(ctx, &schema.SetRequest{KVs: []*schema.KeyValue{{Key: key, Value: v}}})
+		if err != nil {
+			return err
+		}
+		kvs = append(kvs, kvw{hdr.Id, key, v})
+		return nil
+	}
+	nBefore := 4 + r.Rng.Intn(5)
+	for i := 0; i < nBefore; i++ {
+		if err := set(i); err != nil {
+			return fmt.Errorf("set: %v", err)
+		}
+	}
+	cut := kvs[r.Rng.Intn(len(kvs))].id
+	desc += fmt.Sprintf(" cut=%d", cut)
+	rows, docs := 0, 0
+	insertRow := func() error {
+		rows++
+		return exec(fmt.Sprintf("INSERT INTO table1(name, amount) VALUES('n%d', %d)", rows, rows))
+	}
+	insertDoc := func() error {
+		docs++
+		_, err := db.InsertDocuments(ctx, "admin", &protomodel.InsertDocumentsRequest{CollectionName: "coll1",
+			Documents: []*structpb.Struct{{Fields: map[string]*structpb.Value{
+				"number":  {Kind: &structpb.Value_NumberValue{NumberValue: float64(docs)}},
+				"country": {Kind: &structpb.Value_StringValue{StringValue: fmt.Sprintf("c%d", docs)}},
+			}}}})
+		return err
+	}
+	// everything below is written after the cut transaction
+	if err := exec("ALTER TABLE table1 ADD COLUMN surname VARCHAR"); err != nil {
+		return fmt.Errorf("alter table: %v", err)
+	}
+	for i := 0; i < 3; i++ {
+		if err := insertRow(); err != nil {
+			return fmt.Errorf("insert: %v", err)
+		}
+		if err := insertDoc(); err != nil {
+			return fmt.Errorf("insert document: %v", err)
+		}
+		if err := set(nBefore + i); err != nil {
+			return fmt.Errorf("set: %v", err)
+		}
+	}
+	check := func(phase string) {
+		if n, err := count("SELECT * FROM table1"); err != nil || n != rows {
+			r.Finding(fmt.Sprintf("%s: %s: SELECT * FROM table1 gives %d rows (err %v), expected %d", desc, phase, n, err, rows))
+		}
+		cr, err := db.CountDocuments(ctx, &protomodel.CountDocumentsRequest{Query: &protomodel.Query{CollectionName: "coll1"}})
+		if err != nil || int(cr.GetCount()) != docs {
+			r.Finding(fmt.Sprintf("%s: %s: CountDocuments(coll1) = %v (err %v), expected %d", desc, phase, cr.GetCount(), err, docs))
+		}
+		for _, kv := range kvs {
+			if kv.id < cut {
+				continue
+			}
+			e, err := db.Get(ctx, &schema.KeyRequest{Key: kv.key})
+			if err != nil || string(e.Value) != string(kv.val) {
+				r.Finding(fmt.Sprintf("%s: %s: Get(%s) written by tx %d >= cut fails or differs (err %v)", desc, phase, kv.key, kv.id, err))
+			}
+		}
+		st, err := db.CurrentState()
+		if err != nil {
+			r.Finding(fmt.Sprintf("%s: %s: CurrentState: %v", desc, phase, err))
+			return
+		}
+		for id := cut; id <= st.TxId; id++ {
+			if _, err := db.TxByID(ctx, &schema.TxRequest{Tx: id, EntriesSpec: &schema.EntriesSpec{
+				KvEntriesSpec:  &schema.EntryTypeSpec{Action: schema.EntryTypeAction_RAW_VALUE},
+				SqlEntriesSpec: &schema.EntryTypeSpec{Action: schema.EntryTypeAction_RAW_VALUE},
+				ZEntriesSpec:   &schema.EntryTypeSpec{Action: schema.EntryTypeAction_RAW_VALUE}}}); err != nil {
+				r.Finding(fmt.Sprintf("%s: %s: TxByID(%d) with values fails although %d >= cut: %v", desc, phase, id, id, err))
+			}
+		}
+	}
+	check("before truncation")
+	before, _ := db.CurrentState()
+	tr := database.NewVlogTruncator(db, quiet)
+	if err := tr.TruncateUptoTx(ctx, cut); err != nil {
+		r.Finding(fmt.Sprintf("%s: VlogTruncator.TruncateUptoTx failed: %v", desc, err))
+		return nil
+	}
+	after, _ := db.CurrentState()
+	if before != nil && after != nil && after.TxId != before.TxId+1 {
+		r.Finding(fmt.Sprintf("%s: truncation committed %d transactions (expected the catalog copy only)", desc, after.TxId-before.TxId))
+	}
+	check("after truncation")
+	// the same truncation again, and an older cut: harmless
+	if err := tr.TruncateUptoTx(ctx, cut); err != nil {
+		r.Finding(fmt.Sprintf("%s: second VlogTruncator.TruncateUptoTx failed: %v", desc, err))
+	}
+	check("after second truncation")
+	if err := insertRow(); err != nil {
+		r.Finding(fmt.Sprintf("%s: INSERT after truncation fails: %v", desc, err))
+		rows--
+	}
+	if err := insertDoc(); err != nil {
+		r.Finding(fmt.Sprintf("%s: InsertDocuments after truncation fails: %v", desc, err))
+		docs--
+	}
+	// restart
+	if err := db.Close(); err != nil {
+		r.Finding(fmt.Sprintf("%s: database does not close after truncation: %v", desc, err))
+		return nil
+	}
+	closed = true
+	db, err = database.OpenDB("db1", nil, dbOptions(dir, maxio, fsz), quiet)
+	if err != nil {
+		r.Finding(fmt.Sprintf("%s: database does not open after truncation: %v", desc, err))
+		return nil
+	}
+	closed = false
+	check("after restart")
+	if err := insertRow(); err != nil {
+		r.Finding(fmt.Sprintf("%s: INSERT after truncation and restart fails: %v", desc, err))
+		rows--
+	}
+	if err := exec("CREATE TABLE table2 (id INTEGER, PRIMARY KEY id)"); err != nil {
+		r.Finding(fmt.Sprintf("%s: CREATE TABLE after truncation and restart fails: %v", desc, err))
+	}
+	check("after restart and new writes")
+	_ = store.ErrTxNotFound
+	return nil
+}
